@@ -67,9 +67,34 @@ def classify(msg):
     return 'trouble'
 
 
-def run_verus(path, rlimit=30, threads=8, seed=None, timeout=900):
+VERUS_TOOLCHAIN = os.environ.get('VERIF_VERUS_TOOLCHAIN', '1.98.1-x86_64-unknown-linux-gnu')
+
+
+def build_externs(g, repo):
+    """`//@ extern <package> <crate>...`: build <package>'s dependencies offline with the toolchain Verus itself uses
+    (so the rlibs are loadable by it) into the work directory and return the rustc flags that link them.
+    Raises SpecError (tool trouble, exit 2) if the build fails or a crate is missing."""
+    flags = []
+    for pkg, crates in getattr(g, 'externs', []):
+        tgt = os.path.join(WORK, 'extern-target')
+        env = dict(os.environ, CARGO_NET_OFFLINE='true')
+        env.pop('RUSTUP_TOOLCHAIN', None)
+        p = subprocess.run(['cargo', '+' + VERUS_TOOLCHAIN, 'build', '--offline', '-q', '-p', pkg, '--target-dir', tgt],
+                           cwd=repo, capture_output=True, text=True, env=env)
+        deps = os.path.join(tgt, 'debug', 'deps')
+        for c in crates:
+            import glob
+            libs = sorted(glob.glob(os.path.join(deps, 'lib%s-*.rlib' % c)), key=os.path.getmtime)
+            if not libs:
+                raise vgen.SpecError('extern crate %s of %s was not built (cargo rc=%d): %s' % (c, pkg, p.returncode, p.stderr[-400:]))
+            flags += ['--extern', '%s=%s' % (c, libs[-1])]
+        flags += ['-L', 'dependency=' + deps]
+    return flags
+
+
+def run_verus(path, rlimit=30, threads=8, seed=None, timeout=900, extra=()):
     cmd = ['verus', path, '--error-format=json', '--output-json', '--time',
-           '--multiple-errors', '30', '--rlimit', str(rlimit), '--num-threads', str(threads)]
+           '--multiple-errors', '30', '--rlimit', str(rlimit), '--num-threads', str(threads)] + list(extra)
     if seed is not None:
         cmd += ['--smt-option', 'smt.random_seed=%d' % seed]
     t0 = time.time()
@@ -251,8 +276,14 @@ def run_unit(unit, repo='/repo', tier='quick', rlimit=30, seed=None, canaries=Tr
     with open(path, 'w') as f:
         f.write(text)
     res.path = path
-    procs = []
-    cmd, out, err, rc, wall = run_verus(path, rlimit=rlimit, seed=seed)
+    try:
+        res.extern_flags = build_externs(g, repo)
+    except vgen.SpecError as e:
+        res.status = 'trouble'
+        res.trouble.append('SpecError: %s' % e)
+        res.wall_s = time.time() - t0
+        return res
+    cmd, out, err, rc, wall = run_verus(path, rlimit=rlimit, seed=seed, extra=res.extern_flags)
     res.cmd = ' '.join(cmd)
     diags, other = parse_diags(err)
     oj = parse_output_json(out)
@@ -320,7 +351,7 @@ def run_canaries(res, unit, repo, rlimit):
             f.write(text)
         jobs[mode] = (g, path)
     with cf.ThreadPoolExecutor(max_workers=2) as ex:
-        futs = {mode: ex.submit(run_verus, jobs[mode][1], rlimit, 4) for mode in jobs}
+        futs = {mode: ex.submit(run_verus, jobs[mode][1], rlimit, 4, None, 900, getattr(res, 'extern_flags', ())) for mode in jobs}
         for mode, fut in futs.items():
             g, path = jobs[mode]
             cmd, out, err, rc, wall = fut.result()
